@@ -71,6 +71,9 @@ def acceptable_outcomes(trace, interests, packets, legacy=False, deadline_valida
             else:
                 st[i] = 'pending'
                 dl[i] = e[2] + interests[i]['lifetime'] * 1000
+                if interests[i]['lifetime'] == 0:
+                    # a lifetime of zero: the deadline is reached in the instant of expression (no clock tick is needed)
+                    cands[i].append((idx, 'timeout'))
         elif k == 'rx':
             pkt = packets.get(e[1])
             if pkt is None:
